@@ -92,10 +92,20 @@ def _hand_flp(cfg, rc):
             pts.append([rc.choice(grid), rc.choice(grid)])
     locs = torch.tensor(pts, dtype=torch.float32)
     dm = (locs[:, None, :] - locs[None, :, :]).pow(2).sum(-1).sqrt()
+    bound = math.sqrt(2.0)
+    # the distance matrix is part of the instance: road-network style data (Manhattan, detour factor) whose matrix
+    # is not the Euclidean matrix of the coordinates
+    metric = rc.choice(["euclid", "euclid", "manhattan", "detour"])
+    if metric == "manhattan":
+        dm = (locs[:, None, :] - locs[None, :, :]).abs().sum(-1)
+    elif metric == "detour":
+        dm = dm * 1.5
+    if metric != "euclid":
+        bound = float(dm.max()) + 0.5
     # the generator emits to_choose with shape [B]; its docstring documents [B, 1]: both are used
     tc = torch.tensor([q] if cfg.get("flp_quota_2d") else q, dtype=torch.int64)
     return {"locs": locs, "orig_distances": dm,
-            "distances": torch.full((n,), math.sqrt(2.0), dtype=torch.float32),
+            "distances": torch.full((n,), bound, dtype=torch.float32),
             "chosen": torch.zeros(n, dtype=torch.bool),
             "to_choose": tc}
 
